@@ -124,6 +124,11 @@ func (b *Batch) WriteSources() {
 		writeFile(filepath.Join(b.Dir, "src", p.Pkg, f.Name), p.RenderFile(f, gen.Mode{}))
 		writeFile(filepath.Join(b.Dir, "ref", p.Pkg, f.Name), p.RenderFile(f, gen.Mode{Ref: true}))
 	}
+	if p.LoadTest {
+		// loader option WithLoadTest: the package is then loaded as p and p [p.test], and the
+		// two variants share the syntax trees of the non-test files
+		writeFile(filepath.Join(b.Dir, "src", p.Pkg, loadTestFile), loadTestSource(p.Pkg))
+	}
 	if len(p.Files) > 0 {
 		reg := p.RenderReg()
 		writeFile(filepath.Join(b.Dir, "src", p.Pkg, "reg.go"), reg)
@@ -160,7 +165,11 @@ func (b *Batch) compileOnce(src, dst string, stages bool) string {
 	if stages {
 		mode = "stages"
 	}
-	out, err := b.run(5*time.Minute, b.Dir, b.env.Codrv, mode, src, dst)
+	args := []string{mode, src, dst}
+	if b.Prog.LoadTest {
+		args = append(args, "loadtest")
+	}
+	out, err := b.run(5*time.Minute, b.Dir, b.env.Codrv, args...)
 	if err == nil {
 		return ""
 	}
@@ -446,4 +455,35 @@ func (b *Batch) runWith(sp driver.Spec, timeout time.Duration, strict bool) *dri
 		ev.Infra("batch run binary printed no result: %v\n%s", err, firstLines(string(out), 10))
 	}
 	return &res
+}
+
+// the in-package test file that uses the API, present in batches compiled with test packages loaded
+const loadTestFile = "zz_api_test.go"
+
+func loadTestSource(pkg string) string {
+	return "package " + pkg + `
+
+import (
+	"testing"
+
+	. "github.com/goghcrow/go-co"
+)
+
+func zzTestGen(n int) Iter[int] {
+	for i := 0; i < n; i++ {
+		Yield(i)
+	}
+	return nil
+}
+
+func TestZZ(t *testing.T) {
+	s := 0
+	for v := range zzTestGen(3) {
+		s += v
+	}
+	if s != 3 {
+		t.Fatal(s)
+	}
+}
+`
 }
